@@ -24,12 +24,12 @@ ASSUMPTIONS = ['the fault-free string is accepted (checked on every case, a reje
 FAULTS = ['dangling', 'dangling', 'duplicate', 'duplicate', 'undefined', 'annot_base', 'annot_coarse', 'annot_atom']
 EXC = {'two_eq': 'SyntaxError', 'too_many': 'SyntaxError', 'non_numeric': 'TypeError'}
 
-FUZZ = dict(campaigns=8, runs=2500)
+FUZZ = dict(campaigns=8, runs=6000)
 
 
 def budget(tier):
     if tier == 'thorough':
-        return dict(examples=5000, shards=16, procs=16)
+        return dict(examples=10000, shards=16, procs=16)
     return dict(examples=2000, shards=4, procs=4)
 
 
